@@ -597,8 +597,8 @@ def c17_oracle(case, impl):
 
 class C17(Prop):
     id = "C17"
-    translators = []
-    proof_targets = ["Master/BackoffProofs.vo", "Master/AssocProofs.vo", "Master/SchedProofs.vo"]
+    translators = ["gen_master_tables"]
+    proof_targets = ["Master/BackoffProofs.vo", "Master/AssocProofs.vo", "Master/SchedProofs.vo", "Master/TablesAgree.vo"]
     property_file = "Properties/C17.v"
     theorems = []
     modelled = ("modelled by hand: master/association.rs (AutoTaskState, TaskStates, Association, AssociationMap), "
